@@ -976,6 +976,219 @@ def edge_chain(ctx: Ctx, out: Outcome, diagram) -> None:
         }
 
 
+# ------------------------------------------------------------------ (a3) box nesting: _box_factories.generic_factory down a tree
+
+
+class TreeRig:
+    """The real `aird._box_factories.generic_factory` applied to a tree of notation nodes given by plain numbers
+    (stored `layoutConstraint`, port or not, `FlatContainerStyle` or not), parents before children like the parser."""
+
+    def __init__(self, diagram):
+        from lxml import etree
+
+        from capellambse.aird import _box_factories as BF
+        from capellambse.aird import _common as C
+
+        self.diagram, self.etree, self.C, self.BF = diagram, etree, C, BF
+
+    def build(self, tree, v=(0, 0)):
+        """-> ('r', [(pos, stored size, port, index of parent | None), ...] in document order) | ('e', kind)"""
+        et, C = self.etree, self.C
+        dg = self.diagram.Diagram("t")
+        root = et.Element("diagram_tree")
+        out = []
+        ex_parent: list[str] = []
+
+        def rec(node, parent_el, parent_idx):
+            uid = f"N{len(out)}"
+            de = et.SubElement(parent_el, "ownedBorderedNodes" if node["port"] else "ownedDiagramElements", {"uid": uid})
+            et.SubElement(de, "ownedStyle", {C.ATT_XMT: "diagram:FlatContainerStyle" if node["flat"] else "diagram:Square"})
+            data = et.Element("children", {"element": uid})
+            x, y, w, h = node["layout"]
+            if parent_idx is None:
+                x, y = x + v[0], y + v[1]
+            et.SubElement(data, "layoutConstraint", {"x": str(x), "y": str(y), "width": str(w), "height": str(h)})
+            seb = C.SemanticElementBuilder(target_diagram=dg, diagram_tree=root, data_element=data, melodyloader=None, fragment=None,
+                                           diag_element=de, styleclass=None, melodyobjs=[et.Element("obj")])
+            ex_parent[:] = [f"N{parent_idx}"] if parent_idx is not None else []
+            box = self.BF.generic_factory(seb)
+            dg.add_element(box, False)
+            me = len(out)
+            out.append((box, parent_idx))
+            for k in node["kids"]:
+                rec(k, de, me)
+
+        try:
+            rec(tree, root, None)
+        except (AssertionError, ValueError, ZeroDivisionError) as ex:
+            # the node that failed is a child of the box placed last on the current path: report that parent's size
+            last_parent = dg[ex_parent[0]] if ex_parent else None
+            return ("e", err_kind(ex), tuple(last_parent.size) if last_parent is not None else None)
+        return ("r", [((b.pos.x, b.pos.y), (b._size.x, b._size.y), bool(b.port), pi) for b, pi in out])
+
+
+TREE_BRANCHES = ["tree:top-level", "tree:port:on-border-already", "tree:port:moved", "tree:child:pos-kept+size-kept", "tree:child:pos-kept+size-shrunk",
+                 "tree:child:pos-clamped+size-kept", "tree:child:pos-clamped+size-shrunk", "tree:child:clamped-to-nothing"]
+
+
+def tree_cases(ctx: Ctx) -> list[dict]:
+    rng = ctx.rng
+
+    def node(depth, pw, ph, port):
+        if port:
+            where = rng.choice(["in", "left", "right", "top", "bottom", "out", "centre"])
+            x, y = {"in": (rng.randint(0, max(0, pw)), rng.randint(0, max(0, ph))), "left": (-8, rng.randint(0, max(0, ph))), "right": (pw - 7, rng.randint(0, max(0, ph))),
+                    "top": (rng.randint(0, max(0, pw)), -8), "bottom": (rng.randint(0, max(0, pw)), ph - 7), "out": (rng.randint(-60, pw + 60), rng.randint(-60, ph + 60)),
+                    "centre": (pw // 2 - 4, ph // 2 - 4)}[where]
+            return {"layout": (x, y, rng.choice([0, 10, 30]), rng.choice([0, 10, 30])), "port": True, "flat": False, "kids": []}
+        w, h = rng.randint(1, max(2, pw)), rng.randint(1, max(2, ph))
+        mode = rng.choice(["fit"] * 14 + ["margin-exact", "margin-exact", "overflow-right", "overflow-right", "overflow-bottom", "overflow-bottom",
+                           "negative", "negative", "huge", "any", "far-out"])
+        if mode == "fit":
+            w, h = max(3, pw // 2), max(3, ph // 2)
+            x, y = rng.randint(-3, max(0, pw - w - 9)), rng.randint(-3, max(0, ph - h - 9))
+        elif mode == "margin-exact":  # after the (5, 5) offset exactly on the margin lines
+            x, y, w, h = -3, -3, max(1, pw - 4), max(1, ph - 4)
+        elif mode == "overflow-right":
+            x, y = pw - rng.randint(6, 12), rng.randint(0, max(0, ph // 2))
+        elif mode == "overflow-bottom":
+            x, y = rng.randint(0, max(0, pw // 2)), ph - rng.randint(6, 12)
+        elif mode == "negative":
+            x, y = rng.randint(-40, 0), rng.randint(-40, 0)
+        elif mode == "huge":
+            x, y, w, h = rng.randint(-10, 10), rng.randint(-10, 10), pw * 3 + 5, ph * 3 + 5
+        elif mode == "far-out":
+            x, y = pw + rng.randint(0, 30), rng.randint(-5, ph)
+        else:
+            x, y = rng.randint(-20, pw + 20), rng.randint(-20, ph + 20)
+        flat = rng.random() < 0.5
+        kids = []
+        if depth > 0 and (min(w, h) >= 24 or rng.random() < 0.1):
+            for _ in range(rng.choice([0, 1, 1, 2, 3])):
+                kids.append(node(depth - 1, w - (2 if flat and w >= 2 else 0), h - (2 if flat and h >= 2 else 0), rng.random() < 0.3))
+        return {"layout": (x, y, w, h), "port": False, "flat": flat, "kids": kids}
+
+    cases = []
+    for _ in range(ctx.pick(700, 7000)):
+        w, h = rng.choice([(200, 120), (200, 120), (90, 60), (400, 300), (400, 300), (24, 24), (9, 9)])
+        flat = rng.random() < 0.5
+        kids = [node(rng.randint(0, 3), w - (2 if flat else 0), h - (2 if flat else 0), rng.random() < 0.3) for _ in range(rng.randint(1, 4))]
+        cases.append({"layout": (rng.randint(-300, 300), rng.randint(-300, 300), w, h), "port": False, "flat": flat, "kids": kids})
+    return cases
+
+
+def tree_monitor(rig: TreeRig, tree: dict, res, v) -> list[tuple[str, str]]:
+    """the statement on one built tree: every non-port box with a positive size inside its parent (margin 2) and inside
+    every ancestor reached through such boxes; every (fitting) port attached to its parent's border; and the tree built
+    from the root layout moved by `v` is the same tree moved by `v`.  Subtrees below a box whose stored size was clamped
+    to nothing are not judged (its `size` is then computed from text extents)."""
+    if res[0] == "e":
+        if res[1] == "parallel" and res[2] is not None and min(res[2]) <= 6:
+            # a 10x10 port in a parent not larger than 6 px: the "mid box" of snap_to_parent has no positive size;
+            # outside the domain of the port theorem (design/C17.md, "Not covered"); counted, not judged
+            return [("<outside-domain>", "port in a parent not larger than 6 px")]
+        return [(f"generic_factory(box)|raises|{res[1]}", f"raised {res[1]}")]
+    boxes = res[1]
+    bad = []
+    judged = [True] * len(boxes)
+    for k, (pos, size, port, pi) in enumerate(boxes):
+        if any(not math.isfinite(c) for c in (*pos, *size)):
+            return [("generic_factory(box)|non-finite", f"box {k}: {pos} {size}")]
+        if pi is None:
+            continue
+        if not judged[pi] or min(boxes[pi][1]) <= 0:
+            judged[k] = False
+            continue
+        (px, py), (pw, ph) = (F(c) for c in boxes[pi][0]), (F(c) for c in boxes[pi][1])
+        x, y, w, h = F(pos[0]), F(pos[1]), F(size[0]), F(size[1])
+        if port:
+            if pw > 6 and ph > 6 and not port_attached(px, py, pw, ph, x, y, w, h, F(1, 10**8)):
+                bad.append(("generic_factory(box)|port-off-parent-border", f"port {k} at {pos} not attached to parent {boxes[pi][0]}+{boxes[pi][1]}"))
+            judged[k] = False  # nothing is claimed about what hangs below a port relative to the ancestors
+            continue
+        if min(w, h) <= 0:
+            continue
+        a = pi
+        margin = 2
+        while a is not None and judged[a]:
+            (ax, ay), (aw, ah) = (F(c) for c in boxes[a][0]), (F(c) for c in boxes[a][1])
+            if not (ax + margin <= x and ay + margin <= y and x + w <= ax + aw - margin and y + h <= ay + ah - margin):
+                bad.append(("generic_factory(box)|child-outside-" + ("parent" if a == pi else "ancestor"),
+                            f"box {k} at {pos}+{size} not inside box {a} at {boxes[a][0]}+{boxes[a][1]} (margin {margin})"))
+                break
+            margin = 0
+            a = boxes[a][3]
+    moved = rig.build(tree, v)
+    if moved[0] == "e":
+        bad.append((f"generic_factory(box)|moved|raises|{moved[1]}", f"root moved by {v}: raised {moved[1]}"))
+    elif len(moved[1]) != len(boxes) or any(
+            abs(F(a[0][0]) + v[0] - F(b[0][0])) > PTOL or abs(F(a[0][1]) + v[1] - F(b[0][1])) > PTOL or abs(a[1][0] - b[1][0]) > PTOL or abs(a[1][1] - b[1][1]) > PTOL
+            for a, b in zip(boxes, moved[1])):
+        bad.append(("generic_factory(box)|moved|not-equivariant", f"root moved by {v}: {boxes} became {moved[1]}"))
+    return bad
+
+
+def box_tree(ctx: Ctx, out: Outcome, diagram) -> None:
+    rig = TreeRig(diagram)
+    rng = ctx.rng
+    cases = tree_cases(ctx)
+    no_model = os.environ.get("VERIF_NO_MODEL") == "1"
+
+    def enc(n):
+        return {"layout": list(n["layout"]), "port": n["port"], "flat": n["flat"], "kids": [enc(k) for k in n["kids"]]}
+
+    answers = [] if no_model else common.model([{"op": "tree", "overhang": 2, "margin": 2, "root": enc(c)} for c in cases], driver="Geom")
+    stats = {"trees": len(cases), "boxes": 0, "max_depth": 0, "ports": 0, "outside_model": 0}
+
+    def depth(n):
+        return 1 + max((depth(k) for k in n["kids"]), default=0)
+
+    for k, c in enumerate(cases):
+        res = rig.build(c)
+        v = (rng.choice([1, -1, 10000, -3333, 7]), rng.choice([0, -1, -10000, 4, 10000]))
+        rep = {"kind": "tree", "root": enc(c), "v": list(v)}
+        for sig, what in tree_monitor(rig, c, res, v):
+            if sig == "<outside-domain>":
+                out.hit("tree:outside-domain:port-in-parent-not-larger-than-6px")
+                continue
+            out.find(sig, what, rep)
+            out.hit("monitor:" + sig)
+        stats["max_depth"] = max(stats["max_depth"], depth(c))
+        if res[0] == "r":
+            stats["boxes"] += len(res[1])
+            stats["ports"] += sum(1 for b in res[1] if b[2])
+        if answers:
+            ans = answers[k]
+            out.traces_validated += 1
+            if "err" in ans:
+                out.disagree("tree", rep, res, ans)
+            else:
+                a = ans["ok"]
+                for t in a.get("br", []):
+                    out.hit(t)
+                if "e" in a:
+                    if a["e"] == "degenerate":
+                        stats["outside_model"] += 1  # a box clamped to nothing: automatic size, not compared
+                        out.hit("tree:not-compared:automatic-size")
+                    elif res[:2] != ("e", a["e"]):
+                        out.disagree("tree", rep, res, a)
+                elif res[0] == "e":
+                    out.disagree("tree", rep, res, a)
+                else:
+                    mb = [(fr4(b[0]), fr4(b[1])) for b in a["boxes"]]
+                    ib = [(b[0], b[1]) for b in res[1]]
+                    if len(mb) == len(ib) and all(exact(i[0], m[0]) and exact(i[1], m[1]) for i, m in zip(ib, mb)):
+                        out.hit("agree:exact")
+                    elif len(mb) == len(ib) and all(vclose(i[0], m[0]) and vclose(i[1], m[1]) for i, m in zip(ib, mb)):
+                        out.hit("agree:within-1e-9")
+                    else:
+                        out.disagree("tree", rep, [list(map(list, i)) for i in ib], [[str(x) for x in (*m[0], *m[1])] for m in mb])
+        out.case(("tree", str(rep["root"])), rep if k % 349 == 0 else None, nontrivial=depth(c) >= 2)
+    out.extra["box_tree_inputs"] = stats
+    if not no_model:
+        out.extra["box_tree_branches"] = {"expected": len(TREE_BRANCHES), "missing": [b for b in TREE_BRANCHES if b not in out.branches]}
+
+
 # ------------------------------------------------------------------ (b) parser
 
 
@@ -1304,6 +1517,7 @@ def run(ctx: Ctx) -> Outcome:
     kernel_random(ctx, out, diagram)
     kernel_misc(ctx, out, diagram)
     edge_chain(ctx, out, diagram)
+    box_tree(ctx, out, diagram)
     parser_run(ctx, out)
     out.exhaustive = True  # the integer lattice named in RULE is enumerated completely
     import capellambse.diagram._json_enc as je
@@ -1335,6 +1549,15 @@ def replay(ctx: Ctx, case: dict):
             bad = edge_monitor(rig, c, rig.edge(c), v)
         else:
             bad = snapend_monitor(rig, c, rig.snapend(c), v)
+        return "; ".join(f"{sig}: {what}" for sig, what in bad[:3]) or None
+    if kind == "tree":
+        trig = TreeRig(diagram)
+
+        def dec(n):
+            return {"layout": tuple(n["layout"]), "port": n["port"], "flat": n["flat"], "kids": [dec(k) for k in n["kids"]]}
+
+        root = dec(case["root"])
+        bad = [b for b in tree_monitor(trig, root, trig.build(root), tuple(case["v"])) if b[0] != "<outside-domain>"]
         return "; ".join(f"{sig}: {what}" for sig, what in bad[:3]) or None
     if kind in ("parse", "sound", "translate", "move"):
         rig = ParserRig()
